@@ -638,6 +638,13 @@ func c01History(c *ctx, ci int, cf c01Config, nbar int) {
 		if b%25 == 24 {
 			// a transient catalog failure while fabio builds the configuration for the new state, followed by
 			// quiescence: the table must still converge (bounded: the fake agent's blocking queries return after 2s)
+			// (no blocking query times out meanwhile: a real agent's would after 5 minutes or more, so nothing but fabio's
+			// own retry can repair a configuration built from a failed lookup)
+			rg.agent.SetDefaultWait(60 * time.Second)
+			if q := rg.agent.Update(func(map[string]*fakeconsul.Node, map[string]*fakeconsul.Instance) {}); !rg.agent.WaitHealthQuery(q, barrierWatchdog) {
+				c.R.Inconcl("config %d step %d: health watcher did not come back", ci, b)
+				break
+			}
 			rg.agent.FailNextCatalog(1 + r.Intn(2))
 			push()
 			pushManual()
@@ -652,12 +659,13 @@ func c01History(c *ctx, ci int, cf c01Config, nbar int) {
 					}
 				}
 				if time.Now().After(dl) {
-					c.R.Violate("c01:table-does-not-converge-after-catalog-failure", fmt.Sprintf("config checksRequired=%s: 12s after a transient catalog failure (registry quiescent, blocking queries time out every 2s) the table still differs:\n%s", cf.Required, last), map[string]any{"steps": steps})
+					c.R.Violate("c01:table-does-not-converge-after-catalog-failure", fmt.Sprintf("config checksRequired=%s: 12s after a transient catalog failure (registry quiescent, no blocking query timing out) the table still differs:\n%s", cf.Required, last), map[string]any{"steps": steps})
 					return
 				}
 				time.Sleep(100 * time.Millisecond)
 			}
 			rg.agent.FailNextCatalog(0) // failures the service monitor did not run into must not leak into the next step
+			rg.agent.SetDefaultWait(2 * time.Second)
 			c.R.Count("catalog_failure_recoveries", 1)
 		}
 		push()
